@@ -292,6 +292,11 @@ def _is_list_str_validator(eng, fn: FunctionInfo) -> bool:
     """raises (allowed error) unless its first argument is a list whose members are all str"""
     if not fn.pos_params:
         return False
+    if len(fn.pos_params) == 1:
+        from .common import validator_accepts_exactly
+        pr = validator_accepts_exactly(eng, fn, "is_list_str")  # decided by folding on the probe battery when conclusive
+        if pr is not None:
+            return not pr
     cfg = cfg_of(fn)
     p = fn.pos_params[0]
     lst = elem = False
